@@ -23,11 +23,15 @@ META = {
             "eval_compare/compile_bin_op/emit_compare/compare_op/func_binop!/op_binop!/CompareAndPreserve proved equal to the model's, "
             "the set of Expr variants as_const handles and the code generator's compile-time special cases, over which the model's folder "
             "DISPATCHES (it folds exactly the node kinds the source folds; a new foldable kind or a second as_const call site breaks "
-            "traversal_from_source), MAX_REPEATED_STRING_LEN and the ValueKind order used by the concrete value model; (b) the harness "
+            "traversal_from_source), the call sites of compile_call_args/compile_call with their caller argument and the three facts about the caller of a "
+            "{% call %} block (call_sites_from_source; call_block_static_kwargs_keep_caller: the call of a call block passes the user's "
+            "keyword arguments plus the run-time caller also when all keyword values are literals - the guard static_kwargs = "
+            "caller.is_none() is regenerated from the source and discharged by decide for the concrete instance), "
+            "MAX_REPEATED_STRING_LEN and the ValueKind order used by the concrete value model; (b) the harness "
             "generates expressions over the literal grammar (depth<=5, numeric boundary zoo, floats, escaped strings, containers with "
             "repeated keys, chains, keyword arguments, item/attribute access, slices, if-expressions, filters, tests) and templates with "
             "literals in statement heads (if/elif, for, set, with, macro defaults, include/extends/import/from targets, autoescape, "
-            "filter arguments, call blocks), renders all 2^k (k<=6, 64 sampled beyond (templates: k<=4, 20 sampled beyond)) hoisting variants on the real engine under the "
+            "filter arguments, call blocks with keyword arguments, do, filter blocks and set blocks with keyword arguments), renders all 2^k (k<=6, 64 sampled beyond (templates: k<=4, 20 sampled beyond)) hoisting variants on the real engine under the "
             "four undefined modes (oracle: identical output / error kind, identical value via compile_expression, template loads), and "
             "compares the real as_const, the LoadConst in the real instruction stream and the real values with the Lean model run on "
             "the real parser's AST. Every hoisting variant of an expression is rendered through a rotating entry point "
